@@ -51,6 +51,7 @@ from .ast_nodes import (
 )
 from .opcodes import OpCode
 from .values import UNDEFINED
+from .errors import JSSyntaxError
 
 
 @dataclass
@@ -161,11 +162,24 @@ class Compiler:
         if arg is not None:
             if opcode in self._JUMP_OPCODES:
                 # 16-bit little-endian for jump targets
+                self._check_jump_target(arg)
                 self.bytecode.append(arg & 0xFF)
                 self.bytecode.append((arg >> 8) & 0xFF)
             else:
+                if not 0 <= arg <= 0xFF:
+                    raise JSSyntaxError(
+                        "Too many constants, variables or arguments in one function "
+                        f"({opcode.name} operand exceeds 255)"
+                    )
                 self.bytecode.append(arg)
         return pos
+
+    def _check_jump_target(self, target: int) -> None:
+        """Jump targets are encoded in 16 bits: refuse code that does not fit."""
+        if not 0 <= target <= 0xFFFF:
+            raise JSSyntaxError(
+                "Function or program too large (a jump target exceeds 65535)"
+            )
 
     def _take_loop_label(self) -> Optional[str]:
         """Label attached to the loop statement being compiled (for 'continue label')."""
@@ -203,6 +217,7 @@ class Compiler:
         """
         if target is None:
             target = len(self.bytecode)
+        self._check_jump_target(target)
         self.bytecode[pos + 1] = target & 0xFF  # Low byte
         self.bytecode[pos + 2] = (target >> 8) & 0xFF  # High byte
 
